@@ -66,6 +66,8 @@ def gen_one(rng, tier, index):
 
 
 def gen_cases(tier, seed):
+    # the repository's own tests as a workload (vf/suite_monitor.py)
+    yield {'scenario': 'suite'}
     # whole "game sessions" (vf/session.py): the features used together,
     # judged by the self-consistency invariants of this property
     for i in range(150 if tier == 'quick' else 16 * 300):
@@ -383,6 +385,9 @@ def _key(e):
 
 
 def run_case(case):
+    if case.get('scenario') == 'suite':
+        from vf import suite_monitor
+        return suite_monitor.run_suite(ID)
     if case.get('scenario') == 'session':
         return session.run(case, 'C02')
     if case.get('scenario') == 'reentry':
